@@ -240,3 +240,32 @@ Print Assumptions c06_stable_content_partial.
 Print Assumptions c06_joint_inv_ack_then_truncate_partial.
 Print Assumptions c06_joint_inv_process_all.
 Print Assumptions c06_joint_recv_loop.
+
+(* ================================================================================================
+   Step-level and trace-level theorems (Conn/C06_Step.v, Conn/C06_StepLemmas.v): the boolean predicates of
+   Conn/C06_Pred.v hold of EVERY step of the model from a state satisfying a proved invariant, and of
+   every trace from vsock_new. *)
+From Utp Require Import Rx.Rx Conn.VSockRun Conn.VObs Conn.C10_Pred Conn.VSock_Lemmas Conn.C17_StepLemmas
+  Conn.C06_StepLemmas Conn.C06_Step.
+
+(* ---- c06_joint_ok: the joint invariant of ring and table, after every Pending poll of every trace.
+   Invariant (kept by every event): JI w s = the segment-table / segment-size invariants, segmented bytes
+   within the ring (LB), removed_offset = bytes truncated from the ring, and bytes truncated + bytes in
+   the ring = w, the bytes accepted from the writer so far. *)
+Theorem c06_joint_ok_poll_invariant : forall (CC : Type) (cci : cc_iface CC) (w : Z) (s s' : vsock CC),
+  JI w s -> poll cci s = (s', PollPending) -> JI w s'.
+Proof. exact @poll_JI. Qed.
+
+Theorem c06_joint_ok_from_invariant : forall (CC : Type) (cci : cc_iface CC) (ops : list vop) (w : Z)
+    (s : vsock CC),
+  JI w s -> joint_trace w (ftrace cci s ops) = true.
+Proof. exact @joint_trace_ok. Qed.
+
+Theorem c06_joint_ok_every_trace : forall (CC : Type) (cci : cc_iface CC) (cfg : vconfig)
+    (mk : Z -> Z -> CC) (c : vconfig) (s0 : vsock CC) (ops : list vop),
+  vconfig_ok c = true -> vsock_new cci mk c = Some s0 -> c06_joint_ok cfg (ftrace cci s0 ops) = true.
+Proof. exact @c06_joint_ok_trace. Qed.
+
+Print Assumptions c06_joint_ok_poll_invariant.
+Print Assumptions c06_joint_ok_from_invariant.
+Print Assumptions c06_joint_ok_every_trace.
